@@ -465,6 +465,17 @@ def run_spans(ctx):
                 ctx.fail(case, {"got": got}, None)
 
 
+def _history_worker(arg):
+    """the same cases again, one after the other at ONE path in ONE process: a query must depend on what the file holds
+    now, not on what was stored (or read) at that path earlier"""
+    path, cs = arg
+    out = []
+    for c in cs:
+        r = _worker((path, c))
+        out.append({"cks": r["cks"], "fails": r["fails"]})
+    return out
+
+
 def run(ctx):
     cases = gen_cases(ctx)
     args = [(str(ctx.tmp / f"m{k}.cool"), c) for k, c in enumerate(cases)]
@@ -494,6 +505,19 @@ def run(ctx):
         ctx.dist["family:" + c["family"]] += 1
         for f in r["fails"]:
             ctx.fail({**c, "window": f["window"], "chunk": f.get("chunk"), "fill_lower": f.get("fill_lower", True)}, f, None)
+    # history pass: a sample of the cases, grouped by bin count, replayed in one process on one path
+    pick = sorted(ctx.rng.sample(range(len(cases)), min(len(cases), 40 if ctx.tier == "quick" else 160)), key=lambda k: (cases[k]["n"], k))
+    groups = [pick[i::4] for i in range(4)]
+    with ProcessPoolExecutor(max_workers=4) as ex:
+        hres = list(ex.map(_history_worker, [(str(ctx.tmp / f"hist{g}.cool"), [cases[k] for k in grp]) for g, grp in enumerate(groups)]))
+    for grp, hr in zip(groups, hres):
+        for pos, (k, r2) in enumerate(zip(grp, hr)):
+            case = {**cases[k], "history": f"case {pos + 1} of {len(grp)} created and queried at the same path in one process"}
+            ctx.case({"history_of": k, "pos": pos}, nontrivial=pos > 0 and bool(cases[k]["pixels"]), kind="history:same-path")
+            if r2["cks"] != results[k]["cks"] or r2["fails"]:
+                tag = next((t for t in cases[k]["chunks"] if r2["cks"].get(t) != results[k]["cks"].get(t)), None)
+                ctx.fail(case, {"detail": "queries differ from the same cooler stored at a fresh path", "chunk": tag,
+                                "fails": r2["fails"][:2], "previous_case_at_path": cases[grp[pos - 1]] if pos else None}, None)
     ctx.samples.extend([{k: v for k, v in c.items()} for c in cases[5:7]])
     run_spellings(ctx)
     run_spans(ctx)
